@@ -344,6 +344,16 @@ func c08Run(b core.Batch, r *core.Recorder) {
 			rounds = 2
 		}
 		for round := 0; round < rounds; round++ {
+			if round == 1 && i%2 == 0 {
+				// in between: a Range request answered from the stored entry (206); it must leave the stored
+				// headers and body as the origin sent them for the plain request that follows
+				rq := q
+				rq.Header = append(append([][2]string{}, q.Header...), [2]string{"Range", "bytes=0-3"})
+				rr := rig.Do(p, mode, o.Addr, rq)
+				if rr.Err == nil && rr.Status == 206 {
+					r.Count("range_requests_between_store_and_hit", 1)
+				}
+			}
 			before := o.LastSeq()
 			resp := rig.Do(p, mode, o.Addr, q)
 			r.Eval(1)
